@@ -5,6 +5,7 @@ From Coq Require Import String List Bool NArith Lia.
 Import ListNotations.
 From ACH Require Import Bytes BufIO BufIOFacts WriterIOTable WriterIO WriterIOCurrent C16Obl.
 From ACH Require Import Framing BufIOSeq BufIOSeqFacts BufIOSeqInst WriterSiteTable WriterIOSeq WriterSiteCurrent.
+Open Scope list_scope.
 Open Scope N_scope.
 
 Lemma site_table_checks :
@@ -56,6 +57,10 @@ Proof.
   - exact (seq_writer_reports current_spolicy le f Hok script).
   - exact (seq_writer_never_called_again current_spolicy le f Hok script).
 Qed.
+
+Lemma current_seq_results_agree le f script : sfile_in_range f current_spolicy = true ->
+  let r := seq_writer_run current_spolicy le f script in gr_write r = gr_flush r.
+Proof. intros Hr. exact (seq_writer_results_agree current_spolicy le f (current_ok_on f Hr) script). Qed.
 
 Lemma current_seq_no_false_error le f script : sfile_in_range f current_spolicy = true ->
   let r := seq_writer_run current_spolicy le f script in
@@ -245,6 +250,15 @@ Lemma current_seq_read_partial m pre r post :
   ~ (blen (data_of pre) < preview_size /\ blen (data_of pre) + blen (rr_data r) = preview_size) ->
   reports_error (fst (reader_seq current_rpolicy3 m (pre ++ r :: post))) = true.
 Proof. exact (fun Hp Ht Hn => reader_seq_error_reported current_rpolicy3 m pre r post current_rpolicy3_ok Hp Ht Hn). Qed.
+
+Lemma current_seq_read_nil_only_if m rs d :
+  fst (reader_seq current_rpolicy3 m rs) = QParsed d ->
+  (plain rs = true /\ d = data_of rs) \/
+  exists pre r post t, rs = pre ++ r :: post /\ plain pre = true /\ rr_term r = Some t /\
+    (at_boundary pre r \/
+     (d = data_of pre ++ rr_data r /\
+      (t = TEOF \/ (t = TErr RUnexpectedEOF /\ blen (data_of pre) + blen (rr_data r) < preview_size)))).
+Proof. exact (reader_seq_parsed_only_if current_rpolicy3 m rs d current_rpolicy3_ok). Qed.
 
 Lemma current_seq_read_after_event m pre r t post post' :
   plain pre = true -> rr_term r = Some t ->
